@@ -11,7 +11,9 @@ RULE = ("case = (grammar: zoo or random incl. wide alternatives and numeric nont
         "constraint in core concrete syntax generated scope- and type-directed: tree quantifiers with/without match "
         "expressions and optionals, nested 'in', six binary structural predicates + nth + level, count, SMT atoms "
         "(=, distinct, str.len, str.to.int on numeral-valued types, arithmetic, prefixof/suffixof/contains), numeric "
-        "quantifiers in >= 25% of cases); oracle = independent reference semantics written from the specification "
+        "quantifiers in >= 25% of cases, and in 30% of the others a small numeric-quantifier formula is put next to the ordinary "
+        "constraint so that the quantifier-elimination strategy judges every construct; 12% of the cases use a 40- or "
+        "260-children node with deviant children in the tail and nested quantifiers 'in' one of its children); oracle = independent reference semantics written from the specification "
         "(vlib/fml.py); compared: evaluate(text, tree, grammar) and ISLaSolver(grammar, text).check(tree); "
         "non-trivial = some tree quantifier has a non-empty domain in the tree and the reference decided; distinct by "
         "(grammar, tree, constraint) hash")
